@@ -43,8 +43,11 @@ PortionSets == { <<Por(1,2), Por(1,2)>>, <<Por(1,3), Rem>>, <<Por(2,3), Por(1,3)
 SeqOf(X, Y) == {[k |-> "seq", s |-> <<x, y>>] : x \in X, y \in Y}
 CapOf(X)    == {[k |-> "cap", c |-> Mon(c), s |-> x] : c \in CapPool, x \in X}
 AllotOf(X, Y) == {[k |-> "allot", it |-> <<[p |-> ps[1], s |-> x], [p |-> ps[2], s |-> y]>>] : ps \in PortionSets, x \in X, y \in Y}
+\* the same account reached three times in one statement, the first two pulls partial
+Triples == {[k |-> "seq", s |-> <<[k |-> "cap", c |-> Mon(c1), s |-> [k |-> "acct", e |-> Acc("a")]], [k |-> "cap", c |-> Mon(c2), s |-> [k |-> "acct", e |-> Acc("a")]], x>>] :
+               c1 \in {2}, c2 \in {2, 5}, x \in {[k |-> "acct", e |-> Acc("a")], [k |-> "ovd", e |-> Acc("a"), b |-> Mon(3)], [k |-> "seq", s |-> <<[k |-> "acct", e |-> Acc("a")], [k |-> "acct", e |-> Acc(WORLD)]>>]}}
 SrcFam1 == LeafFam \cup SeqOf(LeafFam, LeafFam) \cup CapOf(LeafFam) \cup AllotOf(LeafFam, LeafFam)
-             \cup {[k |-> "seq", s |-> <<>>]}
+             \cup {[k |-> "seq", s |-> <<>>]} \cup Triples
 SrcFam2 == SrcFam1 \cup SeqOf(SrcFam1, LeafFam) \cup SeqOf(LeafFam, SrcFam1) \cup CapOf(SrcFam1)
 
 DAcct == {[k |-> "acct", e |-> Acc(x)] : x \in {"x", "y"}}
